@@ -6,7 +6,7 @@ from hexlib import HexaryTrie, rlp, keccak
 from trie.exceptions import BadTrieProof
 
 ID = "C03"
-LEAN_IMPORTS = ["PyTrie.Props.C03", "PyTrie.Props.Histories", "PyTrie.Props.RawLevel"]
+LEAN_IMPORTS = ["PyTrie.Props.C03", "PyTrie.Props.Histories", "PyTrie.Props.RawLevel", "PyTrie.Props.NonVacuity"]
 THEOREMS = [
     "PyTrie.Props.C03.proof_on_path",
     "PyTrie.Props.C03.proof_head",
@@ -25,6 +25,9 @@ THEOREMS = [
     "PyTrie.Props.Histories.proof_complete_run",
     "PyTrie.Props.Histories.proof_sound_run",
     "PyTrie.Props.Raw.get_proof_refines",
+    "PyTrie.Props.NonVacuity.c03_complete",
+    "PyTrie.Props.NonVacuity.c03_sound",
+    "PyTrie.Props.NonVacuity.c03_withheld",
 ]
 RULE = ("tries built by generated histories (crafted and random prefix-sharing universes, values on both sides of the "
         "32-byte embedding boundary, values on branches, keys ending inside extensions and below embedded nodes); for every "
